@@ -1022,7 +1022,6 @@ func (k *keyEvaluator) fieldContents(n *types.Named, f string, depth int) ([]Tmp
 	return out, true
 }
 
-
 // dropDegenerate removes a template that is another template of the same sink
 // with its trailing variable part empty ("c:"<x>";d:" next to "c:"<x>";d:"<id>):
 // a variable may be empty anyway, so the shorter one describes no additional
